@@ -1,15 +1,28 @@
 P = "github.com/tochemey/goakt/v4/internal/cluster."
+OTHER = "only NodeLeft and NodeJoined events are emitted by the membership handlers"
+# in a single case of the split (first kinds fixed) most emission sites are unreachable; every one of them is reachable in the step entry
+HIST_COVERS = ("joined", "joined-after-left", "left-on-timeout", "left-on-complete", "left-on-late-start", "left-on-late-notification")
+HIST_UNREACH = (OTHER, "a NodeJoined event carries the NodeJoined type and a notified address", "the local node is never reported in a NodeJoined event",
+                "NodeJoined is only emitted for a node whose arrival was notified", "at most one NodeJoined per node until the opposite event",
+                "NodeJoined is emitted only once the latest node-join rebalance epoch has completed",
+                "a NodeLeft event carries the NodeLeft type and a notified address", "the local node is never reported in a NodeLeft event",
+                "NodeLeft is only emitted for a node whose departure was notified", "at most one NodeLeft per node until the opposite event",
+                "NodeLeft is emitted only once the latest node-left rebalance epoch has completed, or on the node's timeout",
+                "a departure notified while the node is not reported as left is recorded (or reported at once)",
+                "a node that was reported as left, then as joined, and leaves again is recorded as a new departure",
+                "a recorded departure is reported when its timeout fires", "a recorded departure is reported once the latest node-left rebalance epoch has completed")
 CHECK = {
     "id": "C34",
     "packages": ["./internal/cluster"],
     "harness": ["internal/cluster/zz_verif_c34.go"],
     "entries": [
         {"fn": P + "vC34_init"},
-        {"fn": P + "vC34_step"},
-        {"fn": P + "vC34_history2"},
+        {"fn": P + "vC34_step", "cases": {"kind": [0, 1, 2, 3, 4]}, "may_be_unreachable": (OTHER,)},
+        {"fn": P + "vC34_history3", "tiers": ("quick",), "cases": {"kind0": [0, 1, 2, 3, 4]}, "may_be_unreachable": HIST_UNREACH, "cover_optional": HIST_COVERS},
+        {"fn": P + "vC34_history4", "tiers": ("thorough",), "cases": {"kind0": [0, 1, 2, 3, 4], "kind1": [0, 1, 2, 3, 4]}, "may_be_unreachable": HIST_UNREACH, "cover_optional": HIST_COVERS},
         {"fn": P + "vC34_redeparture"},
     ],
-    "opts": {"unwind": 16, "select_precise": True, "birth_guard_stores": True,
+    "opts": {"unwind": 16, "select_precise": True, "birth_guard_stores": True, "map_range": "per_entry", "map_dedup": True, "feas_from_iter": 100,
              "substitute": {"(*github.com/tochemey/goakt/v4/discovery.Node).PeersAddress": P + "vC34_peersAddress"},
              "stub": ["(*" + P + "cluster).detectLeaderChangeLocked"]},
     "explanation": "",
